@@ -50,7 +50,7 @@ def _crash(v, props):
     mc = _mc(v)
     trace = lib.outpath(v.prop, "crash.ndjson")
     args = ["crash", "--seed", v.seed + (0 if "C01" in props else 1000), "--out", trace,
-            "--scenarios", 12 if quick else 60,
+            "--scenarios", 18 if quick else 60,
             "--rounds", 2 if quick else 3,
             "--calls", 8 if quick else 10,
             "--cap", 24 if quick else 400]
